@@ -35,12 +35,12 @@ Proof. exact abs_is_address_free. Qed.
 Print Assumptions abs_address_free.
 
 (* the runs the two theorems above speak about exist unless memory runs out: a disciplined
-   sequence never trips an assert, never writes out of bounds, never loops (BadDirtyZero: see
-   zeroed_allocation_not_zeroed_refuted below) *)
+   sequence never trips an assert, never writes out of bounds, never loops, and every zeroed
+   allocation is zero *)
 Theorem run_progress : forall nb ops cap orc,
   disciplined nb ops -> 0 < cap ->
   match run orc (init nb cap) ops with
-  | MOk _ => True | MErr ENoMem => True | MBad BadPlacement => True | MBad BadDirtyZero => True | _ => False
+  | MOk _ => True | MErr ENoMem => True | MBad BadPlacement => True | _ => False
   end.
 Proof. exact run_progress_proof. Qed.
 Print Assumptions run_progress.
@@ -99,18 +99,19 @@ Theorem growth_limit_depends_on_capacity_refuted :
 Proof. exact grow_limit_depends_on_capacity. Qed.
 Print Assumptions growth_limit_depends_on_capacity_refuted.
 
-(* ZEROED ALLOCATIONS ARE NOT ALWAYS ZEROED (defect of arena.c, latent: the compiler never makes a zeroed
-   allocation in a buffer after a plain write to it, except for the final null rule/external).
-   yr_arena_allocate_zeroed_memory and yr_arena_allocate_struct memset only the part added by a realloc
-   that carried the ZERO flag; spare capacity left by a growth for yr_arena_write_data is handed out
-   as it is.  The model marks that outcome BadDirtyZero (contents indeterminate); whether a given
-   sequence runs into it depends on the initial capacity. *)
-Theorem zeroed_allocation_not_zeroed_refuted :
+(* FIXED DEFECT (pinned code, [init_pinned]): yr_arena_allocate_zeroed_memory and yr_arena_allocate_struct
+   memset only the part added by a realloc that carried the ZERO flag; spare capacity left by a growth for
+   yr_arena_write_data was handed out as it was, so whether "zeroed" memory was zero depended on the
+   initial capacity.  The current code ([init], after "fix: zero the memory returned by
+   yr_arena_allocate_zeroed_memory in every case") zeroes the region itself; checks/c19.py reports a
+   reappearance under the key arena-zeroed-allocation-not-zeroed. *)
+Theorem zeroed_allocation_not_zeroed_refuted_pinned :
   disciplined 1 dirty_ops /\
-  run orc_up (init 1 8) dirty_ops = MBad BadDirtyZero /\
-  is_ok (run orc_up (init 1 5) dirty_ops) = true.
-Proof. exact zeroed_allocation_not_zeroed_proof. Qed.
-Print Assumptions zeroed_allocation_not_zeroed_refuted.
+  run orc_up (init_pinned 1 8) dirty_ops = MBad BadDirtyZero /\
+  is_ok (run orc_up (init_pinned 1 5) dirty_ops) = true /\
+  is_ok (run orc_up (init 1 8) dirty_ops) = true.
+Proof. exact zeroed_allocation_not_zeroed_pinned_proof. Qed.
+Print Assumptions zeroed_allocation_not_zeroed_refuted_pinned.
 
 (* non-vacuity: a sequence with every kind of operation, pointers inside a buffer, across buffers
    and NULL, is disciplined and runs at capacity 1 (8 moving reallocs) and at 1 MiB (3) *)
